@@ -1,12 +1,143 @@
-(* props/C03.v — placeholder while the per-class proofs are being closed. *)
+(* props/C03.v — variable references are accepted exactly where the variable is in scope.
+
+   Model: ScopeWalk.v (generic pre-validation walk, run on Generated.schema, i.e. the metadata the
+   code has now).  Specification: ScopeSpec.v (document-level, written from the property text).
+   Proofs: ScopeLib.v (schema-independent lemmas), ScopeProofs.v (one lemma per model class). *)
 From Coq Require Import List NArith ZArith String.
 Import ListNotations.
-Require Import OJD.Base OJD.Json OJD.Schema OJD.Generated OJD.ScopeWalk OJD.ScopeSpec.
+Require Import OJD.Base OJD.Lexer OJD.FsRefs OJD.Json OJD.Schema OJD.Generated OJD.ScopeWalk OJD.ScopeSpec
+               OJD.ScopeLib OJD.ScopeProofs.
 Local Open Scope string_scope.
 
-(* fields whose kind is not a format string / model / union contribute no reference site *)
-Theorem C03_nonfs_partial : forall refs fuel k v sc p syms l,
+(* The walker reports, for EVERY json document and every format-string front end [refs], exactly
+   the errors of the specification: same references, same locations, same order, one error per
+   offending reference (no masking), and never the out-of-fuel marker. *)
+Theorem C03_exact_job : forall refs j,
+  prevalidate Generated.schema refs "JobTemplate" j = spec_job_template refs j.
+Proof. exact exact_job. Qed.
+Print Assumptions C03_exact_job.
+
+Theorem C03_exact_env : forall refs j,
+  prevalidate Generated.schema refs "EnvironmentTemplate" j = spec_env_template refs j.
+Proof. exact exact_env. Qed.
+Print Assumptions C03_exact_env.
+
+(* the fuel 4 * depth + 8 of the model always suffices *)
+Theorem C03_no_fuel : forall refs j,
+  ~ In EFuel (prevalidate Generated.schema refs "JobTemplate" j) /\
+  ~ In EFuel (prevalidate Generated.schema refs "EnvironmentTemplate" j).
+Proof. exact no_fuel. Qed.
+Print Assumptions C03_no_fuel.
+
+(* fields whose kind is not a format string / model / union contribute no reference site
+   (any schema): '{{' in a description or a name is not a reference *)
+Theorem C03_nonfs : forall SC refs fuel k v sc p syms l,
   match k with KFormat _ _ _ _ | KModel _ | KDisc _ _ | KUnion _ => False | _ => True end ->
-  vsingle Generated.schema refs (S fuel) k v sc p syms l = [].
-Proof. intros refs fuel k v sc p syms l H. destruct k; simpl in *; try reflexivity; contradiction. Qed.
-Print Assumptions C03_nonfs_partial.
+  vsingle SC refs (S fuel) k v sc p syms l = [].
+Proof. intros SC refs fuel k v sc p syms l H. destruct k; simpl in *; try reflexivity; contradiction. Qed.
+Print Assumptions C03_nonfs.
+
+(* meaning of a reference site of the specification: a well-formed format string reports exactly
+   the referenced names that are not visible there, each occurrence once, in order *)
+Theorem C03_spec_visible : forall refs vis l s names,
+  refs s = Some names ->
+  chk refs vis l (JStr s) = map (ERef l) (filter (fun n => negb (vis n)) names).
+Proof. exact spec_visible. Qed.
+Print Assumptions C03_spec_visible.
+
+(* a malformed format string is not a reference site (pydantic flags it later) *)
+Theorem C03_spec_malformed : forall refs vis l s, refs s = None -> chk refs vis l (JStr s) = [].
+Proof. intros refs vis l s H. cbn [chk]. rewrite H. reflexivity. Qed.
+
+(* ------------------------------------------------------------------ non-vacuity *)
+Definition js (x : string) : json := JStr (str_of_string x).
+Definition jo (l : list (string * json)) : json := JObj (map (fun kv => (str_of_string (fst kv), snd kv)) l).
+
+(* 2 steps, an INT and a PATH job parameter, a task parameter, an embedded file, a step environment *)
+Definition example_template (job_name : string) (step_b_arg : string) : json :=
+  jo [("specificationVersion", js "jobtemplate-2023-09");
+      ("name", js job_name);
+      ("parameterDefinitions",
+       JArr [jo [("name", js "Frames"); ("type", js "INT")];
+             jo [("name", js "Out"); ("type", js "PATH")]]);
+      ("steps",
+       JArr [jo [("name", js "A");
+                 ("parameterSpace",
+                  jo [("taskParameterDefinitions",
+                       JArr [jo [("name", js "X"); ("type", js "INT"); ("range", js "1-{{Param.Frames}}")]])]);
+                 ("script",
+                  jo [("actions",
+                       jo [("onRun", jo [("command", js "{{Task.File.run}}");
+                                         ("args", JArr [js "{{Task.Param.X}}"; js "{{Param.Out}}";
+                                                        js "{{RawParam.Out}}"])])]);
+                      ("embeddedFiles",
+                       JArr [jo [("name", js "run"); ("type", js "TEXT");
+                                 ("data", js "cd {{Session.WorkingDirectory}}; echo {{Task.RawParam.X}}")]])]);
+                 ("stepEnvironments",
+                  JArr [jo [("name", js "E");
+                            ("variables", jo [("OUT", js "{{Param.Out}}")]);
+                            ("script",
+                             jo [("actions", jo [("onEnter", jo [("command", js "{{Env.File.setup}}")])]);
+                                 ("embeddedFiles",
+                                  JArr [jo [("name", js "setup"); ("type", js "TEXT");
+                                            ("data", js "{{Param.Frames}}")]])])]])];
+             jo [("name", js "B");
+                 ("script",
+                  jo [("actions", jo [("onRun", jo [("command", js "render");
+                                                    ("args", JArr [js step_b_arg])])])])]])].
+
+Definition real_refs := fs_refs ascii_class.
+
+(* (a) every reference in scope: accepted *)
+Example C03_accepts_in_scope :
+  prevalidate Generated.schema real_refs "JobTemplate"
+              (example_template "Job {{Param.Frames}} {{RawParam.Out}}" "{{Param.Out}}") = [].
+Proof. vm_compute. reflexivity. Qed.
+
+(* (b) a task parameter of the sibling step A is not visible in step B's script *)
+Example C03_rejects_sibling_task_param :
+  prevalidate Generated.schema real_refs "JobTemplate"
+              (example_template "Job {{Param.Frames}}" "{{Task.Param.X}}")
+  = [ERef [key "steps"; LIdx 1; key "script"; key "actions"; key "onRun"; key "args"; LIdx 0]
+          (str_of_string "Task.Param.X")].
+Proof. vm_compute. reflexivity. Qed.
+
+(* (c) a PATH parameter's Param.<name> is rejected in the job name but accepted inside scripts and
+       environments (same document: step A's script and environment use Param.Out) *)
+Example C03_rejects_path_param_in_name :
+  prevalidate Generated.schema real_refs "JobTemplate"
+              (example_template "Job {{Param.Out}}" "{{Param.Out}}")
+  = [ERef [key "name"] (str_of_string "Param.Out")].
+Proof. vm_compute. reflexivity. Qed.
+
+(* the specification gives the same verdicts on the same documents (instances of C03_exact_job) *)
+Example C03_spec_nonvacuous :
+  spec_job_template real_refs (example_template "Job {{Param.Out}}" "{{Task.Param.X}}")
+  = [ERef [key "name"] (str_of_string "Param.Out");
+     ERef [key "steps"; LIdx 1; key "script"; key "actions"; key "onRun"; key "args"; LIdx 0]
+          (str_of_string "Task.Param.X")].
+Proof. vm_compute. reflexivity. Qed.
+
+(* an environment template: Env.File of the environment itself is visible, Task.* is not *)
+Example C03_env_template_nonvacuous :
+  prevalidate Generated.schema real_refs "EnvironmentTemplate"
+    (jo [("specificationVersion", js "environment-2023-09");
+         ("parameterDefinitions", JArr [jo [("name", js "Out"); ("type", js "PATH")]]);
+         ("environment",
+          jo [("name", js "E");
+              ("variables", jo [("A", js "{{Param.Out}}"); ("B", js "{{Task.Param.X}}")]);
+              ("script",
+               jo [("actions", jo [("onEnter", jo [("command", js "{{Env.File.f}}");
+                                                   ("args", JArr [js "{{Session.WorkingDirectory}}";
+                                                                  js "{{Env.File.g}}"])])]);
+                   ("embeddedFiles", JArr [jo [("name", js "f"); ("type", js "TEXT"); ("data", js "x")]])])])])
+  = [ERef [key "environment"; key "script"; key "actions"; key "onEnter"; key "args"; LIdx 1]
+          (str_of_string "Env.File.g");
+     ERef [key "environment"; key "variables"; LKey (str_of_string "B")] (str_of_string "Task.Param.X")].
+Proof. vm_compute. reflexivity. Qed.
+
+(* C03_spec_visible has a hypothesis: a concrete well-formed site meets it *)
+Example C03_spec_visible_nonvacuous :
+  real_refs (str_of_string "{{Param.A}} and {{Task.Param.B}}")
+  = Some [str_of_string "Param.A"; str_of_string "Task.Param.B"].
+Proof. vm_compute. reflexivity. Qed.
